@@ -346,7 +346,10 @@ func genCase(r *rand.Rand, mode string) (caseCfg, []hop) {
 	if mode == "dnl" {
 		// dead-nonce flood: many retransmissions with fresh nonces (each puts the previous nonce on the DNL at once) and
 		// many forwarded Interests that expire together; more than 100 records fall due in the same sweep
-		cfg.dnlMs = []int{300, 1000}[r.Intn(2)]
+		// DNL lifetime above every Interest lifetime used here: which 100 of several hundred records with the SAME expiry a
+		// sweep removes depends on container/heap's tie order (not modelled); with this choice no record removed early is
+		// ever re-inserted, so the choice never becomes observable
+		cfg.dnlMs = 1000
 		cfg.fib = []fibRoute{{nm{}, 2, 0}, {nm{}, 3, 1}}
 		var ops []hop
 		nonce := r.Uint32()
@@ -374,6 +377,7 @@ func genCase(r *rand.Rand, mode string) (caseCfg, []hop) {
 		cbp, mbf bool
 	}
 	var recent []ekey
+	var sentInts []hop
 	var ops []hop
 	for i := 0; i < nops; i++ {
 		x := r.Intn(100)
@@ -404,6 +408,11 @@ func genCase(r *rand.Rand, mode string) (caseCfg, []hop) {
 			} else {
 				o.nonce = r.Uint32()
 			}
+			if len(sentInts) > 0 && r.Intn(5) == 0 { // replay an earlier (name, nonce): a loop from another face, or a dead nonce later on
+				p := sentInts[r.Intn(len(sentInts))]
+				o.name, o.nonce, o.cbp, o.mbf = p.name, p.nonce, p.cbp, p.mbf
+			}
+			sentInts = append(sentInts, o)
 			recent = append(recent, ekey{o.name.String(), o.cbp, o.mbf})
 		case x < 88:
 			o = hop{kind: "data", face: uint64(1 + r.Intn(nFaces)), name: pick(), variant: r.Intn(3), fresh: freshes[r.Intn(len(freshes))], tok: "-"}
